@@ -33,7 +33,14 @@ Inductive ev :=
        (reply : Z)         (* 0 nothing came back; 1 a RST mirroring the segment; 2 a SYN-ACK mirroring it; 3 anything else *)
        (quiet : bool)      (* the tables settled again after the driver reset the SYN-RCVD child *)
        (panicked : bool)
-| EState (regs : list (Z * Z * Z * tid * Z)) (addrs : list (Z * addr * Z * Z * bool)).
+| EState (regs : list (Z * Z * Z * tid * Z)) (addrs : list (Z * addr * Z * Z * bool))
+| EAccept (nic net : Z) (id : tid) (regnic nreg child : Z)
+    (* a connection with 4-tuple id whose SYN arrived on nic was accepted through a listener; the stack
+       registered the accepted endpoint nreg times, (last) in the demultiplexer of regnic (0 = the
+       stack-wide one); child = the number the harness gives that endpoint *)
+| EData (nic net : Z) (id : tid) (child got : Z).
+    (* a data segment for exactly that 4-tuple was injected on nic; got = 1 the accepted endpoint
+       read exactly its bytes, 0 it read nothing, 2 it read something else *)
     (* regs: (nic or 0, network, transport, id, endpoint number);  addrs: (nic, address, protocol, refs, holdsInsertRef) *)
 
 Inductive case := Hist (evs : list ev).
@@ -140,6 +147,18 @@ Definition corr_ev (st : stack) (e : ev) : stack * bool :=
       end
   | EState regs addrs =>
       (st, same_set reg_eqb regs (model_regs st) && same_set ad_eqb addrs (model_addrs st))
+  | EAccept nicid net id regnic nreg child =>
+      (* accept.go createConnectedEndpoint: n.boundNICID = s.route.NICID(); registered for the
+         route's network protocol only, under the segment's id *)
+      let '(st', r) := step st (ORawReg nicid [net] TCP id child) in
+      (st', (regnic =? nicid) && (nreg =? 1) && match r with RErr x => x =? 0 | _ => false end)
+  | EData nicid net id child got =>
+      let '(st', r) := step st (OPacket nicid net (raddr id) (laddr id) TCP (rport id) (lport id) false) in
+      match r with
+      | RPkt _ (Delivered e) => (st', got =? (if e =? child then 1 else 0))
+      | RPkt _ _ => (st', got =? 0)
+      | _ => (st', false)
+      end
   end.
 
 (* 0 = every event agrees; otherwise 1 + the index of the first event that does not *)
@@ -365,6 +384,11 @@ Fixpoint spec_evs (s : sstate) (evs : list ev) (acc : Z) : Z :=
           let s' := if a then mkSS (ss_binds s) (ss_socks s) (ss_addrs s) (ss_promisc s) (ss_subnets s) ((nicid, dst) :: ss_held s) else s in
           spec_evs s' evs' (worse acc v)
       | EState _ _ => spec_evs s evs' acc
+      | EAccept _ _ _ _ _ _ => spec_evs s evs' acc
+      | EData _ _ _ _ got =>
+          (* the connected socket is the most specific match of its own 4-tuple whatever listeners
+             or bound sockets exist (its local address stays assigned in these histories) *)
+          spec_evs s evs' (worse acc (if got =? 1 then 0 else 1))
       end
   end.
 
@@ -385,6 +409,8 @@ Fixpoint tag_evs (s : sstate) (evs : list ev) (d r p : bool) : Z :=
           tag_evs s evs' (d || tcpin || negb (Nat.eqb (length got) 0)) (r || (reply =? 1))
                   (p || (a && negb (memNA (nicid, dst) (ss_addrs s))))
       | EState _ _ => tag_evs s evs' d r p
+      | EAccept _ _ _ _ _ _ => tag_evs s evs' d r p
+      | EData _ _ _ _ got => tag_evs s evs' (d || (got =? 1)) r p
       end
   end.
 Definition tag (c : case) : Z := match c with Hist evs => tag_evs ss0 evs false false false end.
